@@ -218,30 +218,43 @@ structure FeatOut where
   mode : Option String := none
 deriving Repr, DecidableEq, Inhabited
 
+/-- `params.get_vis_name(key)` when the feature has a name and a visibility -/
+def stepVisName (spec : FeatSpec) (pm : ParamMap) : Option Vis × String × ParamMap × List Err :=
+  if spec.hasVisName then
+    let r1 := getVis pm
+    let r2 := getStrOpt "name" r1.2.1
+    (r1.1, r2.1.getD spec.key, r2.2.1, r1.2.2 ++ r2.2.2)
+  else (none, spec.key, pm, [])
+
+/-- `params.get_str_opt("struct_name")` for the iterator features -/
+def stepStruct (spec : FeatSpec) (pm : ParamMap) : Option String × ParamMap × List Err :=
+  match spec.structKey with
+  | some k => getStrOpt k pm
+  | none => (none, pm, [])
+
+/-- the `match params.get_str_opt("mode").unwrap_or("auto") { … _ => emit_error!("invalid mode") }` -/
+def stepMode (spec : FeatSpec) (pm : ParamMap) : Option String × ParamMap × List Err :=
+  match spec.modeKind with
+  | .none => (none, pm, [])
+  | _ =>
+    let r := getStrOpt "mode" pm
+    let m := r.1.getD "auto"
+    if spec.modes.contains m then (some m, r.2.1, r.2.2) else (some "auto", r.2.1, r.2.2 ++ [Err.invalidMode])
+
+/-- `params.finish(..)`: every parameter nobody asked for is an error -/
+def finishParams (pm : ParamMap) : List Err := pm.map (fun _ => Err.unknownParameter)
+
 /-- generic `FeatureX::parse` driven by its catalogue row -/
 def parseFeature (spec : FeatSpec) (fm : FeatureMap) : FeatOut × FeatureMap × List Err :=
   match smapRemove spec.key fm with
   | (none, fm) =>
     ({ enabled := false, item := { vis := some .inherited, name := spec.hiddenName } }, fm, [])
   | (some pm, fm) =>
-    let (vis, name, pm, e1) :=
-      if spec.hasVisName then
-        let (vis, pm, e1) := getVis pm
-        let (n, pm, e2) := getStrOpt "name" pm
-        (vis, n.getD spec.key, pm, e1 ++ e2)
-      else (none, spec.key, pm, [])
-    let (sn, pm, e2) := match spec.structKey with
-      | some k => getStrOpt k pm
-      | none => (none, pm, [])
-    let (mode, pm, e3) := match spec.modeKind with
-      | .none => (none, pm, [])
-      | _ =>
-        let (m, pm, e) := getStrOpt "mode" pm
-        let m := m.getD "auto"
-        if spec.modes.contains m then (some m, pm, e) else (some "auto", pm, e ++ [Err.invalidMode])
-    let leftover := pm.map (fun _ => Err.unknownParameter)
-    ({ enabled := true, item := { vis := vis, name := name, structName := sn }, mode := mode },
-      fm, e1 ++ e2 ++ e3 ++ leftover)
+    let r1 := stepVisName spec pm
+    let r2 := stepStruct spec r1.2.2.1
+    let r3 := stepMode spec r2.2.1
+    ({ enabled := true, item := { vis := r1.1, name := r1.2.1, structName := r2.1 }, mode := r3.1 },
+      fm, r1.2.2.2 ++ r2.2.2 ++ r3.2.2 ++ finishParams r3.2.1)
 
 /-- `FeatureSorted::parse` -/
 def parseSorted (fm : FeatureMap) : Sorted × FeatureMap × List Err :=
